@@ -269,4 +269,20 @@ def layout(ctx, prog):
         if src[0] == "call" and src[1].split("::")[-1] == "index":
             rg = strip(src[2][1])
             src_ok = is_param(src[2][0], "hash") and rg[0] == "agg" and rg[1].endswith("Range::Range") and const_value(rg[2][0]) == 0 and is_param(strip(rg[2][1]), "len")
+    if not (ok and src_ok) and len(lo) == 1:
+        # the same loop written over the index: `for i in 0..hs.len() { buf[i + ..] = TABLE[hs[i]] }` with hs = hash[0..len]
+        HS = "core::array::<impl core::ops::Index<I> for [T; N]>::index(param:hash,core::ops::Range::Range{0,(param:len as usize)})"
+        src = canon(strip(lo[0][1]))
+        src_ok = src == "core::ops::Range::Range{0,core::slice::<impl [T]>::len(%s)}" % HS
+        ok = False
+        for i, j, s in g.stmts():
+            if s["s"] == "assign" and s["lhs"]["l"] == 1 and any(isinstance(x, dict) and "ix" in x for x in s["lhs"]["p"]):
+                ix = [x for x in s["lhs"]["p"] if isinstance(x, dict) and "ix" in x][0]["ix"]
+                ie = sy.local(ix)
+                v = strip(sy.rvalue(s["rv"]))
+                r1, n1 = fpath(ie)
+                item = canon(strip(ie))
+                ok = r1[0] == "call" and r1[1].endswith("::next") and n1 == ("<Some>", "0") and \
+                    canon(v) == "internals::base64::BASE64_TABLE_U8[(%s[%s] as usize)]" % (HS, item)
+                why = "index loop: buf[%s] = %s" % (show(ie)[:60], show(v)[:100])
     ctx.ob("SA-FORMULA", "insert_block_hash_into_bytes writes buf[i] = BASE64_TABLE_U8[hash[i]] for i over hash[0..len]", ok and src_ok, "%s; iterates hash[0..len]: %s" % (why, src_ok), g.loc())
